@@ -80,18 +80,18 @@ CLAIMED["C13"] = dict(
 CLAIMED["C17"] = dict(
     text="Lean theorems about an interleaving model of isolatedJob.Execute (atomic swap, delegate, deferred store) for ANY number of threads and ALL interleavings via an inductive invariant: at most one thread is inside the delegate or between its exit and the store (C17_mutex); a call that sees the flag set never enters the delegate and returns the error (C17_fail_fast); flag true iff some thread holds it, and after any completion incl. panic the holder's next step clears it, so the next call is admitted (C17_reopens, C17_admitted_when_free, C17_reopens_progress); proved negative control without the defer (a panic shuts the gate for ever). Tie: regenerated facts (swap guard returning an error first, defer Store(false) before the delegate call, atomic.Bool) + hammer: 32 goroutines with in-flight counter, panics, rejected calls never invoke the delegate, quiescent probe admitted, also through a real scheduler.",
     note="sync/atomic semantics trusted; real interleavings observed",
-    technique="Lean 4 inductive invariant over all interleavings and thread counts + regenerated facts + concurrent hammer",
+    technique="Lean 4 inductive invariant over all interleavings and thread counts, whose per-thread program is tied to isolatedJob.Execute TRANSLATED from the source on every run (gotolean-logger: trans_isolated_call, pcStep_is_Step, trans_execute_program, C17_*_trans; the string facts are implied) + regenerated facts + concurrent hammer",
     ref="DESIGN.md §6 C17")
 
 CLAIMED["C16"] = dict(
     text="Lean theorems: status decision tables for ALL inputs (function: OK iff err = nil; shell: OK iff Run returned no error, with exit code under the os/exec contract; curl: OK iff a response exists and 200 <= code < 400, every Nat code); the accessors show exactly the fields of the execution whose atomic store happened last, never a mixture, for every schedule of concurrent executions (C16_last_execution, generic over the critical section, instantiated for the three jobs; negative control without the lock); one callback per completed execution; a CurlJob holds at most one open response body in every reachable state, also concurrently, with the proved negative control for the unrepaired leak. Tie: regenerated facts (operators and constants of the status tests, Close before Do under the lock, all stored fields assigned between one Lock and one Unlock, one callback site after Unlock, CommandContext/WithContext) + differential: all exit codes 0-255, all HTTP codes 100-599 (scripted handler) and 200-599 (loopback server), execution sequences on one job, cancellation, leak counters 100 vs 300 executions.",
     note="os/exec, net/http internals (connection release, process reaping) are observed (goroutine/fd/process counts), not proved",
-    technique="Lean 4 decision-table and interleaving proofs + regenerated facts + exhaustive differential over finite code spaces",
+    technique="Lean 4 decision-table and interleaving proofs about the Execute methods and accessors TRANSLATED from job/*.go on every run (gotolean-jobs: trans_function/shell/curl_execute = the model's store steps, lock discipline as a theorem, C16_*_trans) + regenerated facts + exhaustive differential over finite code spaces",
     ref="DESIGN.md §6 C16")
 CLAIMED["C18"] = dict(
     text="Lean theorems: a record is emitted iff threshold <= level for EVERY Int threshold and the five levels (LevelOff silences all as a corollary); the line is msg= followed by all arguments in order (structural and positional specification, odd tail, none); in EVERY interleaving of any number of goroutines logging through the mutex each emitted line carries the prefix of the level it was logged at, and each goroutine's enabled records are written exactly once in order (C18_label, C18_complete); proved negative control without the mutex (two goroutines, mislabelled line); NoOp emits nothing; slog level map Trace=-8..Error=8 and attrs in order. Tie: regenerated facts (six level constants, five prefixes, operator in enabled, method->constant/prefix table, Lock/defer Unlock/SetPrefix/Output shape, formatMessage loop, slog level arguments) + exact line differential for all level/threshold/argument shapes + 16-goroutine self-describing messages.",
     note="log.Logger's own atomic line write, fmt rendering of non-string args and slog handler behaviour are observed",
-    technique="Lean 4 proofs (filter, format, interleaving invariant) + regenerated facts + exact line differential",
+    technique="Lean 4 proofs (filter, format, interleaving invariant) about the loggers TRANSLATED from logger/*.go on every run (gotolean-logger: trans_formatMessage, trans_simpleLog, trans_slogLog, trans_erun, C18_*_trans) + regenerated facts + exact line differential",
     ref="DESIGN.md §6 C18")
 
 CLAIMED["C05"] = dict(
